@@ -23,7 +23,8 @@ from vlib import xdriver
 from vlib.xdriver import CONFIRMED, ERROR, REFUTED, UNKNOWN
 
 ROOT = xdriver.ROOT
-EVID = os.path.join(ROOT, 'evidence')
+# VERIF_EVIDENCE_DIR: dev aid for runs against a scratch worktree (bin/seedmatrix); registered commands never set it
+EVID = os.environ.get('VERIF_EVIDENCE_DIR') or os.path.join(ROOT, 'evidence')
 KNOWN_FILE = os.path.join(ROOT, 'known_findings.jsonl')
 
 
